@@ -485,6 +485,8 @@ class Emitter:
         if undecidable:
             body = "{ unimplemented!() }"
             log.append("UNDECIDABLE on this tree (%s): emitted as an assumed declaration without body; handed to the bounded stand-in" % undecidable[:200])
+        elif assumed and d.opts.get("nobody"):
+            pass    # the body is not emitted (see below): its substitutions are not needed
         else:
             body = apply_subs(body, d.subs, log, "fn " + fp.name)
         if self.sabotage and self.sabotage[0] == qual:
@@ -628,6 +630,9 @@ class Emitter:
                 if force_assumed:
                     payload.opts["assumed"] = True
                     payload.opts["proved_in"] = origin
+                    # only the signature and the contract of an included function are used: its body is not emitted, so
+                    # that an edit inside it (which its own unit judges) cannot make every including unit undecidable
+                    payload.opts["nobody"] = True
                 out.append(self.emit_fn(payload))
             elif kind == "expect-body":
                 d = payload
